@@ -219,6 +219,9 @@ func init() {
 			if c.Case%8 == 5 { // packages of other producers (their own content-type defaults, ids, parts), opened and extended
 				return foreignExtendCase(c, (*opc.Package).CheckC01)
 			}
+			if c.Case%16 == 4 { // documents rendered from one template, extended alternately (pictures of different formats), saved at the end
+				return renderSiblingsCase(c, (*opc.Package).CheckC01, map[string]int{"AddImageFromData": 30, "AddImageFromFile": 6, "Header/Footer": 8, "AddParagraph": 3, "Table.content": 6, "AddTable": 3, "Reopen": 0, "RenderAsTemplate": 0, "Notes": 4, "Properties": 3})
+			}
 			if c.Case%8 == 6 { // values landing in raw header/footer XML
 				return scriptCase(c, true, 30, map[string]int{"Header/Footer": 30, "RenderAsTemplate": 14, "Reopen": 4}, (*opc.Package).CheckC01, 2)
 			}
@@ -272,6 +275,9 @@ func init() {
 				return markdownCase(c, (*opc.Package).CheckC13)
 			case 5:
 				return foreignExtendCase(c, (*opc.Package).CheckC13)
+			}
+			if c.Case%12 == 3 { // documents rendered from one template, each given its own styles, lists and notes
+				return renderSiblingsCase(c, (*opc.Package).CheckC13, idWeights)
 			}
 			return c13ScriptCase(c, idWeights)
 		},
